@@ -35,7 +35,8 @@ def _cpu_of(pid):
 
 
 class _Worker:
-    def __init__(self, func, items, wdir, env, wid):
+    def __init__(self, func, items, wdir, env, wid, prefix=None):
+        self.prefix = [x.replace("{wdir}", wdir) for x in (prefix or [])]
         self.func = func
         self.items = list(items)          # [(idx, case)]
         self.wdir = wdir
@@ -68,7 +69,7 @@ class _Worker:
         self.cur = None
         so = open(self.stdout, "w")
         se = open(self.stderr, "w")
-        self.proc = subprocess.Popen([PY, "-m", "vf.worker", self.spec], cwd=VERIF, env=self.env,
+        self.proc = subprocess.Popen(self.prefix + [PY, "-m", "vf.worker", self.spec], cwd=VERIF, env=self.env,
                                      stdout=so, stderr=se, stdin=subprocess.DEVNULL, start_new_session=True)
         so.close()
         se.close()
@@ -135,7 +136,7 @@ class _Worker:
 
 
 def pmap(func, cases, jobs=None, cpu_budget=30.0, wall_budget=None, env=None, keep_dir=False,
-         progress=None, fresh=False, share_size=None):
+         progress=None, fresh=False, share_size=None, prefix=None):
     """Run func(case) for each case; returns list of result dicts, one per case:
        {"status": "ok", "value": ...}
        {"status": "exception", "error": ..., "tb": ...}
@@ -176,7 +177,7 @@ def pmap(func, cases, jobs=None, cpu_budget=30.0, wall_budget=None, env=None, ke
         while active or pending:
             while pending and len(active) < jobs:
                 w_, sh_ = pending.pop()
-                wk = _Worker(func, sh_, wdir, e, w_)
+                wk = _Worker(func, sh_, wdir, e, w_, prefix)
                 workers.append(wk)
                 active.append(wk)
             time.sleep(0.02)
